@@ -1173,6 +1173,10 @@ func c04Antiparallel(a, b s2.Point) bool {
 func genC06Idx(g *G) {
 	r := g.rng
 	for it := 0; it < g.n; it++ {
+		if it%8 == 7 { // family D60: shape edges within 0..3 ulps of antipodal / subnormal differences (c06d60.go)
+			g.c06d60Sample(it)
+			continue
+		}
 		mine := true
 		specs, all := g.c06Collection()
 		if len(specs) == 0 || !mine {
